@@ -226,7 +226,36 @@ class Builder:
         for a, l in self.dangling:
             self._edge(a, l, n)
         self.dangling = [(n, 'next')]
+        if kind in ('stmt', 'test') and ast_node is not None:
+            self._lookup_errors(n)
         return n
+
+    def _lookup_errors(self, n: Node):
+        """Subscripts / del raise IndexError / KeyError.  These are modelled
+        only towards an enclosing handler that names them (so that such
+        handlers are live); they are never propagated as escapes."""
+        a = n.ast
+        subs = [x for x in ast.walk(a) if isinstance(x, ast.Subscript)]
+        if not subs:
+            return
+        for tok in ('builtins.IndexError', 'builtins.KeyError'):
+            for i in range(len(self.stack) - 1, -1, -1):
+                sc = self.stack[i]
+                if sc.kind == 'func':
+                    break
+                if sc.kind == 'try':
+                    hit = None
+                    for types, hnode in sc.data['handlers']:
+                        if self.match(tok, types) == 'yes' and not any(
+                                t in ('builtins.Exception',
+                                      'builtins.BaseException')
+                                for t in types):
+                            hit = hnode
+                            break
+                    if hit is not None:
+                        self._edge(n, ('exc', tok), hit)
+                        hit.extra.setdefault('tokens', set()).add(tok)
+                        break
 
     def _join(self, frame, *lists) -> None:
         d = []
